@@ -46,6 +46,66 @@ def d1(row, s):
     return X.hodograph_exact(row, s)
 
 
+def nested_planted(rnd, n, off=Fr(1, 96)):
+    """degree-n net (n >= 5) with two nested self-crossings B(a1) = B(b1), B(a2) = B(b2), a1 < a2 < b2 < b1, one pair
+    straddling s = 1/2 and the other inside one half: two linear conditions per coordinate solved exactly for two control
+    values, then rounded to binary64 (the crossings of the rounded net are certified by the isolator, not assumed)"""
+    # off = 0: dyadic parameters (the inner crossing then sits on a break point of the recursive bisection);
+    # otherwise all four parameters are moved off the dyadic grid
+    a1, b1 = Fr(rnd.randint(1, 3), 16) + off, Fr(rnd.randint(13, 15), 16) - off
+    if off == 0:
+        # the inner pair inside [1/4, 1/2] or [1/2, 3/4], one of its parameters being the midpoint of that piece
+        mid = rnd.choice([Fr(3, 8), Fr(5, 8)])
+        a2, b2 = rnd.choice([(mid - Fr(3, 32), mid), (mid, mid + Fr(3, 32))])
+    elif rnd.random() < 0.5:
+        a2, b2 = Fr(rnd.randint(9, 10), 16) - off, Fr(rnd.randint(13, 14), 16) + Fr(1, 32) + off
+    else:
+        a2, b2 = Fr(rnd.randint(2, 3), 16) - Fr(1, 32) - off, Fr(rnd.randint(6, 7), 16) + off
+    P = [basis(n, j, a1) - basis(n, j, b1) for j in range(n + 1)]
+    Q = [basis(n, j, a2) - basis(n, j, b2) for j in range(n + 1)]
+    k, l = rnd.sample(range(1, n), 2)
+    det = P[k] * Q[l] - P[l] * Q[k]
+    if det == 0:
+        return None
+    rows = []
+    for _ in range(2):
+        v = [Fr(rnd.randint(-12, 12)) for _ in range(n + 1)]
+        r1 = -sum(P[j] * v[j] for j in range(n + 1) if j not in (k, l))
+        r2 = -sum(Q[j] * v[j] for j in range(n + 1) if j not in (k, l))
+        v[k] = (r1 * Q[l] - P[l] * r2) / det
+        v[l] = (P[k] * r2 - r1 * Q[k]) / det
+        rows.append([Fr(float(x)) for x in v])
+    if max(abs(x) for r in rows for x in r) > 64:
+        return None
+    return rows
+
+
+def certified_self_crossings(nodes):
+    """self-crossings (s1 < s2) certified by the exact isolator (harness/isolate.py) on pairs of exact sub-curves
+    B|[0, m - 1/32] x B|[m + 1/32, 1], m = 1/8 .. 7/8: every crossing with s2 - s1 >= 3/16 lies in one of the seven pairs.
+    Returns (list of dicts {s: (lo, hi), t: (lo, hi), sin2}, complete) where complete says that every pair was decided
+    (status certified), i.e. the list is the full set of crossings with s1 <= m - 1/32 < m + 1/32 <= s2 for some m"""
+    import isolate as ISO
+    found, complete = [], True
+    d = Fr(1, 32)
+    for k in range(1, 8):
+        m = Fr(k, 8)
+        a1, b2 = m - d, m + d
+        left = [X.specialize_exact(r, Fr(0), a1) for r in nodes]
+        right = [X.specialize_exact(r, b2, Fr(1)) for r in nodes]
+        iso = ISO.isolate(left, right)
+        if iso.status != "certified":
+            complete = False
+            continue
+        for r in iso.roots:
+            s = (r.s_lo * a1, r.s_hi * a1)
+            t = (b2 + r.t_lo * (1 - b2), b2 + r.t_hi * (1 - b2))
+            if any(s[0] <= f["s"][1] and f["s"][0] <= s[1] and t[0] <= f["t"][1] and f["t"][0] <= t[1] for f in found):
+                continue
+            found.append({"s": s, "t": t, "sin2": r.sin2_lo})
+    return found, complete
+
+
 def zero_edge_pi_turn(nodes):
     """class of finding F-G (a property of the INPUT): a zero first or last edge of the control polygon (counted as
     direction (1,0) by arctan2(0,0) = 0) next to an edge pointing exactly in the -x direction: the discrete turning
@@ -94,6 +154,28 @@ def main():
                 nodes = planted(rnd, n, a, b)
                 if nodes is not None:
                     add("planted", nodes=nodes, a=a, b=b)
+        # random integer nets: all their self-crossings with a parameter gap >= 3/16 are certified by the exact isolator
+        for n in range(3, 9):
+            for _ in range(2 * reps):
+                add("random-net", nodes=[[Fr(rnd.randint(-12, 12)) for _ in range(n + 1)] for _ in range(2)])
+        # corpus of "lens" nets (harness/data/c18_lens.json, found offline by rejection sampling of 2.6 million integer nets
+        # on the unmodified tree): control-polygon turning below 2 pi, two NESTED self-crossings, the outer pair straddling
+        # s = 1/2 and the inner pair inside one half; every crossing is certified again here by the exact isolator
+        import json as _json
+        with open(os.path.join(os.path.dirname(os.path.abspath(__file__)), "..", "data", "c18_lens.json")) as fh:
+            lens = _json.load(fh)
+        for ent in (lens if thorough else rnd.sample(lens, min(len(lens), 12))):
+            add("random-net", nodes=[[Fr(int(v)) for v in r] for r in ent["nodes"]], family="lens")
+        for n in range(5, 9):
+            got = 0
+            for _ in range(40 * reps):
+                off = Fr(0) if got == 0 else Fr(1, 96)
+                nodes = nested_planted(rnd, n, off)
+                if nodes is not None:
+                    add("random-net", nodes=nodes, family="nested" if off else "nested-dyadic")
+                    got += 1
+                    if got >= reps:
+                        break
         for n in range(2, 9):
             for _ in range(reps):
                 # convex-ish arc: hodograph control points in an open half-plane (strictly increasing x)
@@ -115,7 +197,10 @@ def main():
             midx.append(None)
     sidx = []
     for kind, kw in cases:
-        if have_model and kind in ("planted", "closed-form", "half-plane", "nonterminating", "large-turning"):
+        # cost: the exact model above degree 6 is slow
+        if have_model and kind == "random-net" and len(kw["nodes"][0]) > 7:
+            sidx.append(None)
+        elif have_model and kind in ("planted", "closed-form", "half-plane", "nonterminating", "large-turning", "random-net"):
             sidx.append(PL.ask_self_intersections(drv, cfg, [[Fr(float(x)) for x in r] for r in kw["nodes"]], fuel=30))
         else:
             sidx.append(None)
@@ -194,6 +279,18 @@ def main():
             resid = max(abs(X.bern(r, s1) - X.bern(r, s2)) for r in exact_nodes)
             if resid > Fr(1, 2 ** 26) * size:
                 res.failure("self:not-genuine", "returned pair (%s, %s): |B(s1)-B(s2)| = %.3e (size %.3g)" % (float(s1), float(s2), float(resid), float(size)), rc)
+        dup_found = False
+        for i in range(len(cols)):
+            for j in range(i + 1, len(cols)):
+                if abs(cols[i][0] - cols[j][0]) <= Fr(1, 2 ** 30) and abs(cols[i][1] - cols[j][1]) <= Fr(1, 2 ** 30) and not dup_found:
+                    dup_found = True
+                    near_dyadic = any(abs(v * 256 - round(v * 256)) <= Fr(1, 2 ** 32) for v in cols[i])
+                    res.failure("self:duplicated-at-dyadic-break-point" if near_dyadic else "self:duplicated",
+                                "the self-crossing (%r, %r) is returned twice%s; returned %s" %
+                                (float(cols[i][0]), float(cols[i][1]),
+                                 " (a parameter lies on a break point k/2^m of the recursive bisection: the halves and the pair "
+                                 "left x right both report it, and nothing merges the lists)" if near_dyadic else "",
+                                 [(float(x), float(y)) for x, y in cols]), rc)
         if kind == "half-plane":
             if cols:
                 res.failure("self:spurious-on-injective-curve", "curve with hodograph in an open half-plane returned %d self-intersection(s)" % len(cols), rc)
@@ -201,6 +298,19 @@ def main():
             want = ((3 - math.sqrt(5)) / 6, (3 + math.sqrt(5)) / 6)
             if len(cols) != 1 or abs(float(cols[0][0]) - want[0]) > 2 ** -40 or abs(float(cols[0][1]) - want[1]) > 2 ** -40:
                 res.failure("self:closed-form-wrong", "cubic loop: returned %s, expected %s" % ([(float(a), float(b)) for a, b in cols], want), rc)
+        elif kind == "random-net":
+            crossings, complete = certified_self_crossings(exact_nodes)
+            good = [c for c in crossings if c["sin2"] >= Fr(1, 2 ** 10)]
+            res.count(("rn", str(jkw)), nontrivial=False, certified_crossings=len(crossings) if len(crossings) < 4 else "4+",
+                      isolator_complete=complete)
+            infl = Fr(1, 2 ** 30)
+            for c in good:
+                hits = [x for x in cols if c["s"][0] - infl <= x[0] <= c["s"][1] + infl and c["t"][0] - infl <= x[1] <= c["t"][1] + infl]
+                if len(hits) != 1:
+                    res.failure("self:certified-crossing-missed" if not hits else "self:certified-crossing-duplicated",
+                                "degree %d integer net: the certified transversal self-crossing near (%.9f, %.9f) (sin^2 >= %.3g) is returned "
+                                "%d times; returned %s" % (n, float(c["s"][0]), float(c["t"][0]), float(c["sin2"]), len(hits),
+                                                           [(float(x), float(y)) for x, y in cols]), rc)
         elif kind == "planted":
             a, b = kw["a"], kw["b"]
             if not all(C.is_exact_float(x) for r in nodes for x in r):
